@@ -1,6 +1,9 @@
 package rules
 
 import (
+	"go/ast"
+	"go/types"
+
 	"golang.org/x/tools/go/ssa"
 
 	"cadcheck/core"
@@ -56,4 +59,114 @@ func c07StorageMapCreators(r *core.Run) {
 	}
 	r.Check(n >= 15, rule, "GetDomainStorageMap call sites", 0, itoa(n)+" examined", "fewer call sites than reviewed")
 	r.Floor(rule, 15)
+}
+
+// c07ViewFunctionParams: R4 — a built-in function type marked `view` may be called from a view context; if it takes a
+// function-typed parameter that it invokes (map, filter, forEach…), that parameter's type must be `view` as well,
+// otherwise a view function can run an impure closure through the built-in. Every sema.FunctionType literal with
+// Purity: FunctionPurityView whose parameters are typed by a FunctionType literal (directly, or through a local
+// variable initialised with one) requires that literal to be view too.
+func c07ViewFunctionParams(r *core.Run) {
+	const rule = "R4.viewparams"
+	w := r.W
+	p := w.Pkg("sema")
+	if p == nil {
+		r.Undecided(rule, "sema", "package not loaded")
+		return
+	}
+	info := p.TypesInfo
+	isFunctionTypeLit := func(e ast.Expr) *ast.CompositeLit {
+		if u, ok := e.(*ast.UnaryExpr); ok {
+			e = u.X
+		}
+		cl, ok := e.(*ast.CompositeLit)
+		if !ok {
+			return nil
+		}
+		if tv, ok := info.Types[cl]; ok {
+			if nt, ok := tv.Type.(*types.Named); ok && nt.Obj().Name() == "FunctionType" {
+				return cl
+			}
+		}
+		return nil
+	}
+	purityOf := func(cl *ast.CompositeLit) string {
+		for _, e := range cl.Elts {
+			if kv, ok := e.(*ast.KeyValueExpr); ok {
+				if k, ok := kv.Key.(*ast.Ident); ok && k.Name == "Purity" {
+					return types.ExprString(kv.Value)
+				}
+			}
+		}
+		return ""
+	}
+	n := 0
+	for _, fd := range w.FuncDeclsIn("sema") {
+		if fd.Body == nil {
+			continue
+		}
+		// local variables initialised with a FunctionType literal
+		localLits := map[types.Object]*ast.CompositeLit{}
+		ast.Inspect(fd.Body, func(nd ast.Node) bool {
+			as, ok := nd.(*ast.AssignStmt)
+			if !ok || len(as.Lhs) != len(as.Rhs) {
+				return true
+			}
+			for i, l := range as.Lhs {
+				if id, ok := l.(*ast.Ident); ok {
+					if cl := isFunctionTypeLit(as.Rhs[i]); cl != nil {
+						if o := info.ObjectOf(id); o != nil {
+							localLits[o] = cl
+						}
+					}
+				}
+			}
+			return true
+		})
+		ast.Inspect(fd.Body, func(nd ast.Node) bool {
+			e, ok := nd.(ast.Expr)
+			if !ok {
+				return true
+			}
+			if _, isLit := e.(*ast.CompositeLit); !isLit {
+				return true
+			}
+			outer := isFunctionTypeLit(e)
+			if outer == nil || purityOf(outer) != "FunctionPurityView" {
+				return true
+			}
+			for _, el := range outer.Elts {
+				kv, ok := el.(*ast.KeyValueExpr)
+				if !ok {
+					continue
+				}
+				if k, ok := kv.Key.(*ast.Ident); !ok || k.Name != "Parameters" {
+					continue
+				}
+				ast.Inspect(kv.Value, func(m ast.Node) bool {
+					var inner *ast.CompositeLit
+					switch x := m.(type) {
+					case *ast.Ident:
+						if o := info.ObjectOf(x); o != nil {
+							inner = localLits[o]
+						}
+					case ast.Expr:
+						if cl := isFunctionTypeLit(x); cl != nil && cl != outer {
+							inner = cl
+						}
+					}
+					if inner == nil {
+						return true
+					}
+					n++
+					r.Check(purityOf(inner) == "FunctionPurityView", rule, core.DeclKey(p, fd)+": function-typed parameter of a view function type", inner.Pos(),
+						"the parameter's function type is view", "a built-in function type is marked view but its function-typed parameter is not: a view context can run an impure function through the built-in")
+					return true
+				})
+			}
+			return true
+		})
+	}
+	r.Check(n >= 1, rule, "sema: view function types with function-typed parameters", 0, itoa(n)+" found", "fewer view built-ins with function-typed parameters than reviewed")
+	r.Floor(rule, 2)
 }
